@@ -336,8 +336,12 @@ func GenDoc(t reflect.Type, c Ch, depth int) *Doc {
 			f := t.Field(i)
 			if f.Anonymous {
 				// members of embedded structs are addressed by their own names
-				if f.Type.Kind() == reflect.Struct {
-					sub := GenDoc(f.Type, c, depth+1)
+				ft := f.Type
+				if ft.Kind() == reflect.Ptr && ft.Elem().Kind() == reflect.Struct {
+					ft = ft.Elem() // an embedded pointer: same members, allocated on demand
+				}
+				if ft.Kind() == reflect.Struct {
+					sub := GenDoc(ft, c, depth+1)
 					if sub.Kind == 'o' {
 						d.Obj = append(d.Obj, sub.Obj...)
 					}
